@@ -248,22 +248,23 @@ class TensorWeights(Contract):
             def sym_getattr(self, ctx, name):
                 return lambda ctx, x, copy=True: x
         S.globals = {'numpy': NP(), 'types': Ty(), '_': None}
-        # L-DIVMOD instance for the row-major index
-        i, j = z3.Ints('i!dm j!dm')
-        cx.assume(z3.ForAll([i, j], z3.Implies(z3.And(0 <= i, 0 <= j, j < n2), z3.And((i * n2 + j) / n2 == i, (i * n2 + j) % n2 == j))),
-                  axiom='L-DIVMOD: divmod(i*n + j, n) = (i, j) for 0 <= j < n (lemma library; also z3-provable for fixed n)')
+        # Skolem point (i, j) and coordinate d; the L-DIVMOD instance for its row-major index is PROVED (clause
+        # `arith:divmod-of-row-major-index`) and offered as a premise to the main clauses (no axiom assumed)
+        S.i, S.j, S.d = cx.int('i'), cx.int('j'), cx.int('d')
         return S
 
     def ensures(self, cx, S, r):
         if not isinstance(r, NdArr):
             raise Unsupported('returned %r' % (r,))
-        i, j, d = z3.Ints('i j d')
+        i, j, d, n2 = S.i, S.j, S.d, S.n2
         rng = z3.And(0 <= i, i < S.n1, 0 <= j, j < S.n2)
+        inst = z3.Implies(z3.And(0 <= j, j < n2), z3.And((i * n2 + j) / n2 == i, (i * n2 + j) % n2 == j))
+        lem = ('arith:divmod-of-row-major-index', inst)
         if self.what == 'weights':
-            return [('length', z3.simplify(r.shape[0]) == S.n1 * S.n2 if len(r.shape) == 1 else z3.BoolVal(False)),
-                    ('weight-of-point-(i,j)-at-i*n2+j', z3.ForAll([i, j], z3.Implies(rng, r.sel(i * S.n2 + j) == S.W1(i) * S.W2(j))))]
-        return [('coords-of-point-(i,j)-at-i*n2+j', z3.ForAll([i, j, d], z3.Implies(z3.And(rng, 0 <= d, d < S.d1 + S.d2),
-                                                                                  r.sel(i * S.n2 + j, d) == z3.If(d < S.d1, S.C1(i, d), S.C2(j, d - S.d1)))))]
+            return [lem, ('length', z3.simplify(r.shape[0]) == S.n1 * S.n2 if len(r.shape) == 1 else z3.BoolVal(False)),
+                    ('weight-of-point-(i,j)-at-i*n2+j', z3.Implies(z3.And(inst, rng), r.sel(i * S.n2 + j) == S.W1(i) * S.W2(j)))]
+        return [lem, ('coords-of-point-(i,j)-at-i*n2+j', z3.Implies(z3.And(inst, rng, 0 <= d, d < S.d1 + S.d2),
+                                                                    r.sel(i * S.n2 + j, d) == z3.If(d < S.d1, S.C1(i, d), S.C2(j, d - S.d1))))]
 
     def replay(self, ob):
         import os
@@ -277,14 +278,35 @@ def contracts():
         cs.append(Table('gauss2', 2, deg, 7 if deg > 6 else 6) if False else Table('gauss2', 2, deg, 7))
     for deg in range(0, 10):
         cs.append(Table('gauss3', 3, deg, 8))
+    from contracts import samplepart, pointsx
+    cs += pointsx.contracts()
+    cs += samplepart.contracts()
     return cs
 
 
 TRUSTED = ['pyvc symbolic executor in exact mode: float literals are the decimals they spell, int/int is an exact rational',
            'numpy.take / numpy.concatenate on nested lists (modelled exactly), types.arraydata as identity',
            'Gauss-Legendre rule with N points is exact to degree 2N-1 (classical theorem; gauss() itself, an eigen-solver, is not verified)',
-           'linearity: exactness on monomials gives exactness on all polynomials of that degree (meta)']
+           'linearity: exactness on monomials gives exactness on all polynomials of that degree (meta)',
+           # index partition (contracts/samplepart.py, samplector.py, sampleeval.py)
+           'PART as a bijection with ghost inverses elem_of/loc_of (H1 + H2 of contracts/samplepart.py) is equivalent to "pairwise disjoint, no repetitions, covers range(npoints)" (meta)',
+           'structural induction over the nesting of sample classes: every operand is assumed to satisfy PART, every class is shown to preserve it (meta, as in C11)',
+           'numpy axioms (cross-checked in native/axioms.py): arange(a, b) = a..b-1; take(a, ind)[k] = a[ind[k]] with IndexError out of range; a[ind] likewise; a[s:t] and slice(*pair); '
+           'cumsum recurrence (L-CUMSUM); v[:, None]*n + w[None, :] broadcasts to the outer grid and .ravel() is C order (flat q <-> (q div m, q mod m)); int64 as mathematical integers',
+           'nutils.types.frozenarray / arraydata keep the values of the array they wrap; cached_property is transparent',
+           'L-MONO (adjacent-monotone => monotone) and L-ROW (a monotone row pointer starting at 0 assigns every position one row) from pyvc/lemmas.py',
+           'engine: a list comprehension over a sequence of symbolic length is the list of its element expression at every index (pyvc/interp.py symbolic_listcomp); [c] + L is list concatenation',
+           'evaluable twins: the denotation table of IR constructors in contracts/sampleeval.py (Range, Constant, constant, Take, get, divmod, appendaxes, prependaxes, InsertAxis, Zeros, '
+           'loop_concatenate of one-element chunks over loop_index, _SizesToOffsets = cumsum([0, *sizes])); induction over loops is inside the loop_concatenate axiom']
 ASSUMPTIONS = ['machine arithmetic treated as mathematical: the tables are checked as exact rationals with tolerance 5e-15 for the 16-digit decimal constants',
-               'for degree above the table maximum (6 triangle / 7 tetrahedron) the code warns "inexact"; the last table is checked to its own degree (7 / 8)']
-NOT_COVERED = ['_Integral.lower, sample zipping, tensor/child/mosaic point sets, weights times |det J| (array semantics)',
-               'index partition of sample._DefaultIndex/_Add/_Mul/_TakeElements.getindex (DESIGN 4.9; not built)']
+               'for degree above the table maximum (6 triangle / 7 tetrahedron) the code warns "inexact"; the last table is checked to its own degree (7 / 8)',
+               'getindex is called with 0 <= ielem < nelems (Sample.index iterates range(nelems)); out-of-range arguments are only checked for _DefaultIndex, _TakeElements, _Empty (IndexError)',
+               '_DefaultIndex: points.npoints = sum of the per-element point counts (PointsSequence.npoints; pointsseq.py is not under contract) so that npoints = offsets[-1]',
+               '_CustomIndex: the stored index is a permutation of range(npoints).  The constructor only asserts its SHAPE (proved: index.shape == (parent.npoints,)); bijectivity is the documented, unchecked precondition of Sample.new(index=...)',
+               '_TakeElements: every entry of _indices is an element number of the parent, 0 <= i < parent.nelems (callers: Sample.take_elements); the constructor asserts only ndim == 1 and at least one entry',
+               '_Zip: the class invariant its constructor builds with numpy.unique/argsort/ravel_multi_index (_offsets = cumsum([0, *_sizes]), sizes add up to npoints, _indices a permutation) is ASSUMED; _Zip.__init__ is not under contract',
+               'evaluable twins: operands have one point axis (their get_evaluable_indices denotes a vector); labelled bounded for _Mul']
+NOT_COVERED = ['_Integral.lower, _ConcatenatePoints/_ReorderPoints lowering, tensor/child/mosaic point sets, weights times |det J| (array semantics)',
+               '_Zip.__init__ (numpy.unique / argsort / ravel_multi_index bookkeeping), _TakeElements.get_evaluable_indices (IR loops + Unravel), get_evaluable_weights / get_lower_args of every class',
+               '_Add has no get_evaluable_indices (its integrals are split); _Add/_Mul take_elements, tri/hull bookkeeping',
+               'points.ConcatPoints dedup, TransformPoints.weights, points.gauss table count logic (task item 7: not attempted)']
